@@ -583,3 +583,9 @@ Theorem C20_ring_double_bond_cutoff_examples :
   ring_bond_chiral [8] = true /\ ring_bond_chiral [7] = false /\ ring_bond_chiral [9; 12] = true /\ ring_bond_chiral [10; 6] = false.
 Proof. exact ring_bond_chiral_examples. Qed.
 Print Assumptions C20_ring_double_bond_cutoff_examples.
+
+(* ---- the entry test of MoleculeStereo._chiral_morgan (the atom order the chirality perception of fix_stereo works with) ---- *)
+Theorem C20_plain_order_iff_no_label : forall atoms bond_atoms,
+  uses_plain_order atoms bond_atoms = true <-> atoms = [] /\ bond_atoms = [].
+Proof. exact plain_order_iff_no_label. Qed.
+Print Assumptions C20_plain_order_iff_no_label.
